@@ -152,7 +152,7 @@ def _effects(repo, rep):
     rep.require_min("R14.1", 6, "functions reachable from the render entries")
     # fresh per-render state
     f = repo.func(BT + "render")
-    t = " ".join(src(s) for s in f.node.body)
+    t = L.text(f.node, body_only=True)
     for need, what in (("econtext = Scope(__kw)", "variable scope"),
                        ("rcontext: dict[str, Any] = {}", "global context"),
                        ("stream = self.output_stream_factory()",
@@ -165,7 +165,7 @@ def _effects(repo, rep):
               f.qualname, "template variables arrive as a ** dictionary (a "
               "new dict per call)", construct="kwargs", where=L.where(f))
     g = repo.func(ZT + "PageTemplate.render")
-    t = " ".join(src(s) for s in ast.walk(g.node) if isinstance(s, ast.stmt))
+    t = L.text(g.node)
     rep.check("_kw['repeat'] = RepeatDict({})" in t and
               "if 'repeat' not in _kw:" in t, "R14.1", g.qualname,
               "a fresh repeat dictionary per render", construct="fresh:repeat",
@@ -333,7 +333,7 @@ def _publish(repo, rep):
               "caller's list (shared with the loader) is left unmodified",
               construct="caller-list-mutated", where=L.where(pf),
               detail=detail)
-    t = " ".join(src(s) for s in f.node.body)
+    t = L.text(f.node, body_only=True)
     rep.check("builtins_dict = self.builtins.copy()" in t and
               "builtins_dict.update(self.extra_builtins)" in t, "R14.4",
               f.qualname, "class-level builtins are copied before they are "
@@ -393,7 +393,7 @@ def _locks(repo, rep):
                   "and release_lock is inside try/finally",
                   construct="lock", where=L.where(f))
     m = repo.module("chameleon.loader")
-    t = " ".join(src(s) for s in m.tree.body)
+    t = L.text(m.tree, body_only=True)
     rep.check("lock = RLock()" in t and "acquire_lock = lock.acquire" in t and
               "release_lock = lock.release" in t, "R14.5", "chameleon.loader",
               "one process-wide re-entrant lock", construct="rlock")
